@@ -111,6 +111,9 @@ pub const HOST_TRAITS: &[(&str, &str)] = &[
     ("two", "#[map(T)]\n#[from(U)]\n#[owned_into_existing(U)]"),
     ("hint-struct", "#[map(T as {})]\n#[into_existing(T as {})]"),
     ("hint-tuple", "#[map(T as ())]\n#[into_existing(T as ())]"),
+    // every kind converted by a quick return: no struct / enum body is rendered at all, so instructions that only matter
+    // to a body (and the known todo!()s of KF-C16-01..07/09 that sit in body rendering) must stay silent (seed C16-08)
+    ("quick-return", "#[from(T| return Default::default())]\n#[into(T| return Default::default())]\n#[into_existing(T| return Default::default())]"),
     ("none", ""),
 ];
 
@@ -451,7 +454,7 @@ impl Space for Mutate {
 pub fn run(tier: &str) -> i32 {
     let rep = Report::new("C16", tier, "exploration");
     rep.set_rule(
-        "every derive input of three bounded grammars is expanded by the real o2o_impl::expand::derive under catch_unwind: soup = {4 hosts x every hole x 6 host trait sets x 45 instruction names x bare|o2o(..) x (no args | = \"v\" | every token sequence up to the stated length over the 24-token alphabet A1 / 87-token alphabet A2)}; combo(n) = every n-tuple of the 90-entry instruction catalogue over every non-decreasing tuple of holes; mutate = every single-token delete/duplicate/swap/replace/insert of every catalogue entry. states = distinct input texts; non-trivial = inputs that are rejected or panic (i.e. reach validation/diagnostic code rather than plain expansion)",
+        "every derive input of three bounded grammars is expanded by the real o2o_impl::expand::derive under catch_unwind: soup = {4 hosts x every hole x 7 host trait sets (one converts every kind by a quick return: nothing that only a body needs may panic there) x 45 instruction names x bare|o2o(..) x (no args | = \"v\" | every token sequence up to the stated length over the 24-token alphabet A1 / 87-token alphabet A2)}; combo(n) = every n-tuple of the 90-entry instruction catalogue over every non-decreasing tuple of holes; mutate = every single-token delete/duplicate/swap/replace/insert of every catalogue entry. states = distinct input texts; non-trivial = inputs that are rejected or panic (i.e. reach validation/diagnostic code rather than plain expansion)",
     );
     rep.assume("inputs are lexed by proc_macro2's fallback lexer and parsed by syn 1 (default features), as in the real macro build minus rustc's lexer");
     rep.assume("a panic is identified by message + file (line numbers are informational)");
